@@ -77,6 +77,10 @@ def make_desc(job):
     o = dict(spec["opts"])
     opt, fam, mode = job["cell"]
     r = random.Random(H(job["seed"], "propbias"))
+    if job["tier"] == "thorough":
+        # deeper exploration: more line-granularity schedules, more instance histories
+        o["p_line"] = max(o.get("p_line", 0.05), 0.25)
+        o["p_history"] = max(o.get("p_history", 0.2), 0.3)
     if o.get("minmax_bias") and r.random() < 0.5:
         o["minmax"] = o["minmax_bias"]
     if o.get("cycles_bias_one") and r.random() < 0.15:
